@@ -94,17 +94,23 @@ class LeafNode(TreeNode):
         """
         printer.write(repr(self.object))
 
+    @staticmethod
+    def _mixed_type_sort_key(obj):
+        # Objects of types that cannot be compared with each other (e.g., 9 and "5") are ordered by kind first;
+        # comparing only their string forms is not transitive together with the native order (9 < 10 < "5" < 9)
+        return 'number' if isinstance(obj, (int, float)) else type(obj).__name__, str(obj)
+
     def __lt__(self, other):
         if isinstance(other, LeafNode):
             try:
                 return self.object < other.object
             except TypeError:
-                return str(self.object) < str(other.object)
+                return self._mixed_type_sort_key(self.object) < self._mixed_type_sort_key(other.object)
         else:
             try:
                 return self.object < other
             except TypeError:
-                return str(self.object) < str(other)
+                return self._mixed_type_sort_key(self.object) < self._mixed_type_sort_key(other)
 
     def __eq__(self, other):
         if isinstance(other, LeafNode):
